@@ -1,6 +1,1899 @@
-//! C17 — monitor not built yet.
-use crate::core::Ctx;
+//! C17 — packet framing: the reader accepts every legal framing (and parses the body to the same
+//! value), rejects illegal framings without mis-splitting, and the writer emits only legal framings.
+//!
+//! Oracles
+//!  * H  header codec: every length value x every length form, library decode/encode against a local
+//!       RFC 9580 §4.2 decoder (written here, no `pgp` code).
+//!  * R  reader: `rfc::frame::frame` produces every legal framing of (tag, body) between a lead and a
+//!       tail packet; `PacketParser` must give [lead, X, tail] with X equal to the X of the canonical
+//!       framing, and (for packet types whose body serialisation is the identity) a body equal to the
+//!       framed body. `Message::from_bytes` must give the reference payload.
+//!  * I  illegal framings: the declared packet must never come back `Ok`; an `Err` item must appear.
+//!  * W  writer: every stream written by `MessageBuilder`/`to_bytes` is deframed by the reference
+//!       (`rfc::frame::deframe` + `check_written`), recursively through compression and (with the
+//!       session key, by the reference SEIPD decryptors) encryption; literal body == payload.
+
+use std::io::{BufRead, BufReader, Read};
+
+use pgp::composed::{Deserializable, Message, MessageBuilder, SignedSecretKey};
+use pgp::crypto::aead::{AeadAlgorithm, ChunkSize};
+use pgp::crypto::hash::HashAlgorithm;
+use pgp::crypto::sym::SymmetricKeyAlgorithm;
+use pgp::packet::{Packet, PacketHeader, PacketParser, PacketTrait};
+use pgp::ser::Serialize;
+use pgp::types::{
+    CompressionAlgorithm, KeyDetails, PacketHeaderVersion, PacketLength, Password, StringToKey, Tag,
+};
+use rand::Rng;
+use serde_json::{json, Value};
+
+use crate::core::{describe_case, hexs, Ctx};
+use crate::hooks;
+use crate::rfc;
+use crate::rfc::frame::{check_written, deframe, frame, is_data_tag, LenForm, RawPacket};
+use crate::shim::{Sched, SchedReader};
+use crate::zoo;
+
+const DATA_TAGS: [u8; 5] = [8, 9, 11, 18, 20];
+
+// ------------------------------------------------------------------------------------------------
+// small helpers
+
+/// position dependent full-range bytes
+fn pat(len: usize, salt: u32) -> Vec<u8> {
+    (0..len)
+        .map(|i| (((i as u32).wrapping_add(salt.wrapping_mul(7919))).wrapping_mul(2654435761) >> 24) as u8)
+        .collect()
+}
+
+/// position dependent bytes, all < 0x80 (can never look like a packet header)
+fn ascii(len: usize, salt: u32) -> Vec<u8> {
+    pat(len, salt).into_iter().map(|b| 0x20 + b % 0x5f).collect()
+}
+
+fn form_class(f: &LenForm) -> &'static str {
+    match f {
+        LenForm::NewMin => "new-min",
+        LenForm::New1 => "new1",
+        LenForm::New2 => "new2",
+        LenForm::New5 => "new5",
+        LenForm::Old1 => "old1",
+        LenForm::Old2 => "old2",
+        LenForm::Old4 => "old4",
+        LenForm::OldIndeterminate => "old-indeterminate",
+        LenForm::Partial(..) => "partial",
+    }
+}
+
+fn form_is_new(f: &LenForm) -> bool {
+    matches!(f, LenForm::NewMin | LenForm::New1 | LenForm::New2 | LenForm::New5 | LenForm::Partial(..))
+}
+
+fn form_json(f: &LenForm) -> Value {
+    json!(format!("{f:?}"))
+}
+
+/// A body for `tag` of exactly `len` octets that is, where the type allows it, a valid body.
+fn body_for(tag: u8, len: usize, salt: u32, only_ascii: bool) -> Vec<u8> {
+    let fill = |n: usize| if only_ascii { ascii(n, salt) } else { pat(n, salt) };
+    match tag {
+        11 if len >= 6 => {
+            // mode 'b', file name, date, data
+            let name: &[u8] = if len >= 16 { b"f.bin" } else { b"" };
+            let mut b = vec![b'b', name.len() as u8];
+            b.extend_from_slice(name);
+            b.extend_from_slice(&[0, 0, 0, 0]);
+            let n = len - b.len();
+            b.extend(fill(n));
+            b
+        }
+        8 if len >= 1 => {
+            let mut b = vec![0u8];
+            b.extend(fill(len - 1));
+            b
+        }
+        18 if len >= 1 => {
+            let mut b = vec![1u8];
+            b.extend(fill(len - 1));
+            b
+        }
+        20 if len >= 19 => {
+            // version 1, AES128, OCB, chunk size octet 6, 15 octet IV
+            let mut b = vec![1u8, 7, 2, 6];
+            b.extend(ascii(15, salt));
+            b.extend(fill(len - 19));
+            b
+        }
+        10 if len == 3 => b"PGP".to_vec(),
+        13 => ascii(len, salt),
+        _ => fill(len),
+    }
+}
+
+/// Types whose body serialisation is the identity on every body that parses.
+fn faithful(tag: u8) -> bool {
+    matches!(tag, 8 | 9 | 10 | 11 | 13 | 18 | 20 | 21)
+}
+
+fn literal_body(name: &[u8], payload: &[u8]) -> Vec<u8> {
+    let mut b = vec![b'b', name.len() as u8];
+    b.extend_from_slice(name);
+    b.extend_from_slice(&[0x65, 0x5f, 0x00, 0x00]);
+    b.extend_from_slice(payload);
+    b
+}
+
+/// All non-empty sequences over `parts` with sum <= max_total.
+fn enum_seqs(parts: &[u32], max_total: u32) -> Vec<Vec<u32>> {
+    fn rec(parts: &[u32], left: u32, cur: &mut Vec<u32>, out: &mut Vec<Vec<u32>>) {
+        for p in parts {
+            if *p <= left {
+                cur.push(*p);
+                out.push(cur.clone());
+                rec(parts, left - p, cur, out);
+                cur.pop();
+            }
+        }
+    }
+    let mut out = vec![];
+    rec(parts, max_total, &mut vec![], &mut out);
+    out
+}
+
+/// first chunk from `firsts`, then every sequence of at most `max_later` later chunks 2^0..2^9
+fn small_later_seqs(firsts: &[u32], max_later: usize) -> Vec<Vec<u32>> {
+    let mut out = vec![];
+    for f in firsts {
+        let mut level: Vec<Vec<u32>> = vec![vec![*f]];
+        out.extend(level.clone());
+        for _ in 0..max_later {
+            let mut next = vec![];
+            for s in &level {
+                for e in 0..=9u32 {
+                    let mut t = s.clone();
+                    t.push(1 << e);
+                    next.push(t);
+                }
+            }
+            out.extend(next.clone());
+            level = next;
+        }
+    }
+    out
+}
+
+// ------------------------------------------------------------------------------------------------
+// local RFC 9580 §4.2 header decoder (reference for family H)
+
+#[derive(Debug, PartialEq, Eq, Clone, Copy)]
+enum RefLen {
+    Fixed(u32),
+    Partial(u32),
+    Indeterminate,
+}
+
+/// (new_format, tag, length, octets used)
+fn ref_decode_header(b: &[u8]) -> Option<(bool, u8, RefLen, usize)> {
+    let h = *b.first()?;
+    if h & 0x80 == 0 {
+        return None;
+    }
+    if h & 0x40 != 0 {
+        let tag = h & 0x3f;
+        let o = *b.get(1)?;
+        let (l, used) = match o {
+            0..=191 => (RefLen::Fixed(o as u32), 2),
+            192..=223 => (RefLen::Fixed(((o as u32 - 192) << 8) + *b.get(2)? as u32 + 192), 3),
+            255 => (
+                RefLen::Fixed(u32::from_be_bytes([*b.get(2)?, *b.get(3)?, *b.get(4)?, *b.get(5)?])),
+                6,
+            ),
+            _ => (RefLen::Partial(1u32 << (o & 0x1f)), 2),
+        };
+        Some((true, tag, l, used))
+    } else {
+        let tag = (h >> 2) & 0x0f;
+        let (l, used) = match h & 3 {
+            0 => (RefLen::Fixed(*b.get(1)? as u32), 2),
+            1 => (RefLen::Fixed(u16::from_be_bytes([*b.get(1)?, *b.get(2)?]) as u32), 3),
+            2 => (
+                RefLen::Fixed(u32::from_be_bytes([*b.get(1)?, *b.get(2)?, *b.get(3)?, *b.get(4)?])),
+                5,
+            ),
+            _ => (RefLen::Indeterminate, 1),
+        };
+        Some((false, tag, l, used))
+    }
+}
+
+fn lib_len(l: PacketLength) -> RefLen {
+    match l {
+        PacketLength::Fixed(n) => RefLen::Fixed(n),
+        PacketLength::Partial(n) => RefLen::Partial(n),
+        PacketLength::Indeterminate => RefLen::Indeterminate,
+    }
+}
+
+fn header_codec_one(ctx: &mut Ctx, n: u32, tag: u8) {
+    // ---- decode: reference-encoded headers of every form that can carry n
+    let mut forms: Vec<(&'static str, Vec<u8>)> = vec![];
+    if n < 192 {
+        forms.push(("new1", vec![0xC0 | tag, n as u8]));
+    }
+    if (192..8384).contains(&n) {
+        let v = n - 192;
+        forms.push(("new2", vec![0xC0 | tag, 192 + (v >> 8) as u8, v as u8]));
+    }
+    {
+        let mut h = vec![0xC0 | tag, 255];
+        h.extend_from_slice(&n.to_be_bytes());
+        forms.push(("new5", h));
+    }
+    let ot = tag & 0x0f;
+    if n < 256 {
+        forms.push(("old1", vec![0x80 | ot << 2, n as u8]));
+    }
+    if n < 65536 {
+        let mut h = vec![0x80 | ot << 2 | 1];
+        h.extend_from_slice(&(n as u16).to_be_bytes());
+        forms.push(("old2", h));
+    }
+    {
+        let mut h = vec![0x80 | ot << 2 | 2];
+        h.extend_from_slice(&n.to_be_bytes());
+        forms.push(("old4", h));
+    }
+    for (name, h) in &forms {
+        ctx.eval();
+        let mut src = &h[..];
+        let got = PacketHeader::try_from_reader(&mut src);
+        let is_new = name.starts_with("new");
+        let want_tag = if is_new { tag } else { ot };
+        let ok = match &got {
+            Ok(ph) => {
+                u8::from(ph.tag()) == want_tag
+                    && lib_len(ph.packet_length()) == RefLen::Fixed(n)
+                    && (ph.version() == PacketHeaderVersion::New) == is_new
+                    && src.is_empty()
+            }
+            Err(_) => false,
+        };
+        if !ok {
+            ctx.violation(
+                format!("C17/header/decode-mismatch/{name}"),
+                format!("PacketHeader::try_from_reader({}) = {:?}, want tag {} Fixed({})", hex::encode(h), got, want_tag, n),
+                json!({"family": "H", "header": hex::encode(h), "n": n, "tag": tag}),
+            );
+        }
+    }
+    // ---- encode: library-written headers decoded by the reference
+    let mut enc: Vec<(&'static str, Result<Vec<u8>, String>, bool, u8)> = vec![];
+    {
+        let mut v = vec![0xC0 | tag];
+        let r = PacketLength::Fixed(n).to_writer_new(&mut v).map(|_| v).map_err(|e| e.to_string());
+        enc.push(("to_writer_new", r, true, tag));
+    }
+    enc.push((
+        "new_fixed",
+        PacketHeader::new_fixed(Tag::from(tag), n).to_bytes().map_err(|e| e.to_string()),
+        true,
+        tag,
+    ));
+    if let Ok(ph) = PacketHeader::from_parts(PacketHeaderVersion::Old, Tag::from(ot), PacketLength::Fixed(n)) {
+        enc.push(("old_from_parts", ph.to_bytes().map_err(|e| e.to_string()), false, ot));
+    }
+    for (name, r, is_new, t) in enc {
+        ctx.eval();
+        let ok = match &r {
+            Ok(b) => ref_decode_header(b) == Some((is_new, t, RefLen::Fixed(n), b.len())),
+            Err(_) => false,
+        };
+        if !ok {
+            ctx.violation(
+                format!("C17/header/encode-mismatch/{name}"),
+                format!("library wrote header {:?} for tag {} Fixed({}); reference decodes {:?}", r.as_ref().map(hex::encode), t, n, r.as_ref().ok().and_then(|b| ref_decode_header(b))),
+                json!({"family": "H", "n": n, "tag": tag, "writer": name}),
+            );
+        }
+        // minimal encoding is what PacketLength::fixed_encoding_len / PacketHeader::write_len promise
+        if let (Ok(b), true) = (&r, is_new) {
+            if b.len() != 1 + PacketLength::fixed_encoding_len(n) {
+                ctx.violation(
+                    "C17/header/encode-length-disagrees-with-fixed_encoding_len",
+                    format!("header for Fixed({n}) is {} octets, fixed_encoding_len says {}", b.len(), 1 + PacketLength::fixed_encoding_len(n)),
+                    json!({"family": "H", "n": n, "tag": tag, "writer": name}),
+                );
+            }
+        }
+    }
+}
+
+fn family_header_codec(ctx: &mut Ctx) {
+    // every n in 0..=70000 (quick) / 0..=300000 (thorough), block-wise
+    let top = ctx.qt(70_000u32, 300_000u32);
+    let block = 2048u32;
+    let mut start = 0u32;
+    while start <= top {
+        if ctx.mine() {
+            describe_case(&format!("H: header codec n in {start}..{}", start + block));
+            let end = (start + block - 1).min(top);
+            let res = crate::core::guard(|| {
+                for n in start..=end {
+                    header_codec_one(ctx, n, (n % 64) as u8);
+                }
+            });
+            if let Err(p) = res {
+                ctx.violation(
+                    format!("C17/header/panic/{}", p.short_loc()),
+                    format!("panic: {} at {}", p.msg, p.loc),
+                    json!({"family": "H", "start": start}),
+                );
+            }
+            ctx.cover(&("H", start));
+            ctx.tally("H.lengths", (end - start + 1) as u64);
+        }
+        start += block;
+    }
+    // large values, partial exponents, every tag with a few lengths
+    if ctx.mine() {
+        describe_case("H: big lengths, partial exponents, all tags");
+        let mut rng = ctx.rng("H.big", 0);
+        let mut ns: Vec<u32> = vec![u32::MAX, u32::MAX - 1, 1 << 31, (1 << 24) - 1, 1 << 24, (1 << 16) - 1, 1 << 16];
+        for _ in 0..ctx.qt(2000, 50_000) {
+            let bits = rng.gen_range(17..=32u32);
+            ns.push(rng.gen::<u32>() >> (32 - bits));
+        }
+        for (i, n) in ns.iter().enumerate() {
+            header_codec_one(ctx, *n, (i % 64) as u8);
+        }
+        for tag in 0..64u8 {
+            for n in [0u32, 191, 192, 8383, 8384, 65535, 65536] {
+                header_codec_one(ctx, n, tag);
+            }
+            ctx.seen("H.tags", format!("{tag}"));
+        }
+        for e in 0..=30u32 {
+            ctx.eval();
+            // decode
+            let h = [0xC0 | 11, 224 + e as u8];
+            let got = PacketHeader::try_from_reader(&h[..]);
+            let ok = matches!(&got, Ok(ph) if lib_len(ph.packet_length()) == RefLen::Partial(1 << e) && u8::from(ph.tag()) == 11);
+            if !ok {
+                ctx.violation("C17/header/decode-mismatch/partial", format!("partial exponent {e}: {got:?}"), json!({"family": "H", "exp": e}));
+            }
+            // encode
+            let mut v = vec![];
+            let r = PacketLength::Partial(1 << e).to_writer_new(&mut v);
+            if r.is_err() || v != [224 + e as u8] {
+                ctx.violation("C17/header/encode-mismatch/partial", format!("Partial(2^{e}) written as {}", hex::encode(&v)), json!({"family": "H", "exp": e}));
+            }
+            let fp = PacketHeader::from_parts(PacketHeaderVersion::New, Tag::LiteralData, PacketLength::Partial(1 << e));
+            match fp.and_then(|p| p.to_bytes()) {
+                Ok(b) if b == h => {}
+                other => ctx.violation("C17/header/encode-mismatch/partial", format!("from_parts Partial(2^{e}) -> {other:?}"), json!({"family": "H", "exp": e})),
+            }
+            ctx.seen("H.partial_exponents", format!("{e}"));
+        }
+        ctx.cover(&("H", "big"));
+    }
+}
+
+// ------------------------------------------------------------------------------------------------
+// running the library parser
+
+#[derive(Clone, Debug, PartialEq, Eq)]
+enum Item {
+    Ok { tag: u8, newfmt: bool, body: Vec<u8> },
+    Err(String),
+}
+
+impl Item {
+    fn short(&self) -> String {
+        match self {
+            Item::Ok { tag, newfmt, body } => format!("Ok(tag {tag}, {}, {} octets)", if *newfmt { "new" } else { "old" }, body.len()),
+            Item::Err(c) => format!("Err({c})"),
+        }
+    }
+    fn is_ok(&self) -> bool {
+        matches!(self, Item::Ok { .. })
+    }
+}
+
+#[derive(Clone, Copy, Debug, PartialEq, Eq)]
+enum Rd {
+    Slice,
+    Buf(usize),
+}
+
+const RDS: [Rd; 6] = [Rd::Slice, Rd::Buf(1), Rd::Buf(3), Rd::Buf(512), Rd::Buf(8192), Rd::Buf(100_000)];
+
+struct Parsed {
+    items: Vec<Item>,
+    /// a packet whose re-serialisation is not one well-framed packet of the same type
+    rewrite_bad: Option<String>,
+    /// a packet whose `write_len()` is not the number of octets `to_bytes()` writes
+    write_len_bad: Option<String>,
+}
+
+fn err_class(e: &pgp::errors::Error) -> String {
+    let d = format!("{e:?}");
+    d.chars().take_while(|c| c.is_ascii_alphanumeric()).collect()
+}
+
+/// The value of a parsed packet: type, header format, body octets. The body is taken from the
+/// packet's own serialisation, deframed by the reference (which at the same time checks that what
+/// the library re-writes is one well-framed packet whose declared length matches).
+fn packet_item(p: &Packet, rewrite_bad: &mut Option<String>, write_len_bad: &mut Option<String>) -> Item {
+    let tag = u8::from(p.tag());
+    let newfmt = p.packet_header_version() == PacketHeaderVersion::New;
+    let body = match p.to_bytes() {
+        Err(e) => {
+            rewrite_bad.get_or_insert(format!("to_bytes failed for tag {tag}: {e}"));
+            vec![]
+        }
+        Ok(ser) => {
+            if ser.len() != p.write_len() {
+                write_len_bad.get_or_insert(format!("tag {tag}: write_len() = {} but {} octets written", p.write_len(), ser.len()));
+            }
+            match deframe(&ser) {
+                Ok(v) if v.len() == 1 && v[0].tag == tag && v[0].new_format == newfmt && v[0].partial_chunks.is_empty() => {
+                    v.into_iter().next().map(|r| r.body).unwrap_or_default()
+                }
+                Ok(v) => {
+                    rewrite_bad.get_or_insert(format!(
+                        "tag {tag} re-serialised as {} packet(s): {:?}",
+                        v.len(),
+                        v.iter().map(|r| (r.tag, r.new_format, r.body.len(), r.partial_chunks.len())).collect::<Vec<_>>()
+                    ));
+                    vec![]
+                }
+                Err(e) => {
+                    rewrite_bad.get_or_insert(format!("tag {tag} re-serialisation does not deframe: {e}"));
+                    vec![]
+                }
+            }
+        }
+    };
+    Item::Ok { tag, newfmt, body }
+}
+
+fn parse_all<R: BufRead>(r: R, max_items: usize) -> Parsed {
+    let mut items = vec![];
+    let mut rewrite_bad = None;
+    let mut write_len_bad = None;
+    for it in PacketParser::new(r).take(max_items) {
+        match it {
+            Ok(p) => items.push(packet_item(&p, &mut rewrite_bad, &mut write_len_bad)),
+            Err(e) => items.push(Item::Err(err_class(&e))),
+        }
+    }
+    Parsed { items, rewrite_bad, write_len_bad }
+}
+
+fn run_parser(bytes: &[u8], rd: Rd, max_items: usize) -> Parsed {
+    match rd {
+        Rd::Slice => parse_all(bytes, max_items),
+        Rd::Buf(c) => parse_all(BufReader::with_capacity(c, bytes), max_items),
+    }
+}
+
+fn lead_packet() -> (u8, Vec<u8>) {
+    (10, b"PGP".to_vec())
+}
+fn tail_packet() -> (u8, Vec<u8>) {
+    (13, b"tail <t@example.org>".to_vec())
+}
+
+/// lead ‖ framing ‖ tail (no tail after an indeterminate length)
+fn sandwich(tag: u8, body: &[u8], form: &LenForm) -> Option<(Vec<u8>, bool)> {
+    let (lt, lb) = lead_packet();
+    let mut s = frame(lt, &lb, &LenForm::New1)?;
+    s.extend(frame(tag, body, form)?);
+    let has_tail = *form != LenForm::OldIndeterminate;
+    if has_tail {
+        let (tt, tb) = tail_packet();
+        s.extend(frame(tt, &tb, &LenForm::New1)?);
+    }
+    Some((s, has_tail))
+}
+
+struct ReaderCase<'a> {
+    family: &'static str,
+    tag: u8,
+    body: &'a [u8],
+    form: &'a LenForm,
+    rd: Rd,
+    /// body must come back unchanged when the packet parses
+    must_roundtrip: bool,
+}
+
+/// Runs one framing through PacketParser and judges it against the reference expectation and the
+/// canonical outcome `canon` (None when this *is* the canonical framing). Returns X.
+fn reader_case(ctx: &mut Ctx, c: &ReaderCase, canon: Option<&Item>) -> Option<Item> {
+    let (stream, has_tail) = sandwich(c.tag, c.body, c.form)?;
+    let fc = form_class(c.form);
+    let replay = || json!({"family": c.family, "tag": c.tag, "form": form_json(c.form), "body_len": c.body.len(), "reader": format!("{:?}", c.rd), "stream": hexs(&stream)});
+    let (parsed, ev) = ctx.guarded("C17/reader", replay, || hooks::record(|| run_parser(&stream, c.rd, 8)))?;
+    ctx.eval();
+    note_body_events(ctx, &ev);
+    let want_n = if has_tail { 3 } else { 2 };
+    let (lt, lb) = lead_packet();
+    let (tt, tb) = tail_packet();
+    let lead_ok = parsed.items.first() == Some(&Item::Ok { tag: lt, newfmt: true, body: lb });
+    let tail_ok = !has_tail || parsed.items.get(2) == Some(&Item::Ok { tag: tt, newfmt: true, body: tb });
+    if parsed.items.len() != want_n || !lead_ok || !tail_ok {
+        ctx.violation(
+            format!("C17/reader/mis-split/{fc}"),
+            format!(
+                "stream lead‖packet(tag {}, {} octets, {:?})‖tail parsed into {} item(s): [{}]",
+                c.tag,
+                c.body.len(),
+                short_form(c.form),
+                parsed.items.len(),
+                parsed.items.iter().map(|i| i.short()).collect::<Vec<_>>().join(", ")
+            ),
+            replay(),
+        );
+        return parsed.items.get(1).cloned();
+    }
+    if let Some(why) = &parsed.rewrite_bad {
+        ctx.violation(format!("C17/rewrite/illegal/{fc}"), why.clone(), replay());
+    }
+    if let Some(why) = &parsed.write_len_bad {
+        ctx.violation("C17/rewrite/write-len-mismatch", why.clone(), replay());
+    }
+    let x = parsed.items[1].clone();
+    if let Item::Ok { tag, newfmt, body } = &x {
+        if *tag != c.tag || *newfmt != form_is_new(c.form) {
+            ctx.violation(
+                format!("C17/reader/header-misreported/{fc}"),
+                format!("framed tag {} ({}) reported as tag {} ({})", c.tag, if form_is_new(c.form) { "new" } else { "old" }, tag, if *newfmt { "new" } else { "old" }),
+                replay(),
+            );
+        }
+        if c.must_roundtrip && body != c.body {
+            ctx.violation(
+                format!("C17/reader/body-differs/{fc}"),
+                format!("tag {}: framed body of {} octets came back as {} octets (first difference at {:?})", c.tag, c.body.len(), body.len(), first_diff(body, c.body)),
+                replay(),
+            );
+        }
+    } else if c.must_roundtrip {
+        ctx.violation(
+            format!("C17/reader/rejects-legal/{fc}"),
+            format!("valid body of tag {} ({} octets) under {:?} gives {}", c.tag, c.body.len(), short_form(c.form), x.short()),
+            replay(),
+        );
+    }
+    if let Some(canon) = canon {
+        let same = match (canon, &x) {
+            (Item::Ok { tag: t1, body: b1, .. }, Item::Ok { tag: t2, body: b2, .. }) => t1 == t2 && b1 == b2,
+            (Item::Err(a), Item::Err(b)) => a == b,
+            _ => false,
+        };
+        if !same {
+            let sym = match (canon, &x) {
+                (Item::Ok { .. }, Item::Err(_)) => "rejects-legal",
+                (Item::Err(_), Item::Err(_)) => "error-class-differs",
+                _ => "differs-from-canonical",
+            };
+            ctx.violation(
+                format!("C17/reader/{sym}/{fc}"),
+                format!("tag {} body {} octets: canonical framing gives {}, {:?} gives {}", c.tag, c.body.len(), canon.short(), short_form(c.form), x.short()),
+                replay(),
+            );
+        }
+    }
+    Some(x)
+}
+
+fn note_body_events(ctx: &mut Ctx, ev: &[hooks::Ev]) {
+    for e in ev {
+        if e.site == "body.new" {
+            ctx.seen("hook.body.new.kind", ["fixed", "indeterminate", "partial"][e.a.min(2) as usize]);
+            if e.a == 2 {
+                ctx.seen("hook.body.new.partial_first_chunk", format!("{}", e.b));
+            }
+            ctx.seen("hook.body.new.tags", format!("{}", e.c));
+        }
+    }
+}
+
+fn short_form(f: &LenForm) -> String {
+    match f {
+        LenForm::Partial(c, l) if c.len() > 12 => format!("Partial({} chunks starting {:?}.., {:?})", c.len(), &c[..6], l),
+        _ => format!("{f:?}"),
+    }
+}
+
+fn first_diff(a: &[u8], b: &[u8]) -> Option<usize> {
+    a.iter().zip(b.iter()).position(|(x, y)| x != y).or(if a.len() != b.len() { Some(a.len().min(b.len())) } else { None })
+}
+
+const NONPARTIAL_FORMS: [LenForm; 8] = [
+    LenForm::NewMin,
+    LenForm::New1,
+    LenForm::New2,
+    LenForm::New5,
+    LenForm::Old1,
+    LenForm::Old2,
+    LenForm::Old4,
+    LenForm::OldIndeterminate,
+];
+
+fn boundary_lens(ctx: &Ctx) -> Vec<usize> {
+    let mut v: Vec<usize> = vec![0, 1, 2, 3, 5, 6, 7];
+    let spread: usize = ctx.qt(2, 4);
+    if !ctx.quick() {
+        v.extend(0..=520);
+    }
+    for c in [191usize, 192, 255, 256, 512, 8191, 8192, 8383, 8384, 16384, 65535, 65536, 70000] {
+        for x in c.saturating_sub(spread)..=c + spread {
+            v.push(x);
+        }
+    }
+    v.sort_unstable();
+    v.dedup();
+    v
+}
+
+// ------------------------------------------------------------------------------------------------
+// Family RA: every tag x every non-partial length form x boundary body lengths
+
+fn family_ra(ctx: &mut Ctx) {
+    let lens = boundary_lens(ctx);
+    for tag in 0..64u8 {
+        for (li, len) in lens.iter().enumerate() {
+            if !ctx.mine() {
+                continue;
+            }
+            describe_case(&format!("RA: tag {tag} len {len}"));
+            let body = body_for(tag, *len, tag as u32 + 1, false);
+            let canon_case = ReaderCase { family: "RA", tag, body: &body, form: &LenForm::NewMin, rd: Rd::Slice, must_roundtrip: false };
+            let Some(canon) = reader_case(ctx, &canon_case, None) else { continue };
+            // valid-by-construction bodies must parse and come back unchanged
+            let valid = match tag {
+                11 => *len >= 6,
+                8 | 18 => *len >= 1,
+                20 => *len >= 19,
+                9 | 13 | 21 => true,
+                10 => *len == 3,
+                _ => false,
+            };
+            ctx.seen("RA.canonical_outcome", format!("tag{tag}:{}", if canon.is_ok() { "ok" } else { "err" }));
+            for (fi, form) in NONPARTIAL_FORMS.iter().enumerate() {
+                for rd in RDS {
+                    let rc = ReaderCase { family: "RA", tag, body: &body, form, rd, must_roundtrip: valid && faithful(tag) };
+                    if reader_case(ctx, &rc, Some(&canon)).is_some() {
+                        ctx.cover(&("RA", tag, *len, fi));
+                        ctx.seen("RA.forms", form_class(form));
+                        ctx.seen("RA.cells(tag-class,form)", format!("{}:{}", if tag < 16 { "tag<16" } else { "tag>=16" }, form_class(form)));
+                    }
+                }
+            }
+            if li == 9 && tag == 11 {
+                let (s, _) = sandwich(tag, &body, &LenForm::Old2).unwrap();
+                ctx.sample(json!({"family": "RA", "tag": tag, "form": "Old2", "len": len, "stream": hexs(&s), "outcome": canon.short()}));
+            }
+        }
+        ctx.seen("RA.tags", format!("{tag}"));
+    }
+}
+
+// ------------------------------------------------------------------------------------------------
+// Family RB: partial body chunk sequences on the data packet types (PacketParser)
+
+/// final-chunk variants for a sequence: (rest length, final form)
+fn finals(idx: usize, thorough: bool) -> Vec<(usize, LenForm)> {
+    let all: [(usize, LenForm); 10] = [
+        (0, LenForm::New1),
+        (0, LenForm::New5),
+        (1, LenForm::New1),
+        (191, LenForm::New1),
+        (192, LenForm::New2),
+        (193, LenForm::New5),
+        (50, LenForm::New5),
+        (700, LenForm::New2),
+        (8383, LenForm::New2),
+        (8384, LenForm::New5),
+    ];
+    if thorough {
+        all.to_vec()
+    } else {
+        // the empty final chunk always, plus three rotating
+        let mut v = vec![all[0].clone()];
+        for k in 0..3 {
+            v.push(all[1 + (idx * 3 + k) % 9].clone());
+        }
+        v
+    }
+}
+
+fn chunk_seq_catalogue(ctx: &Ctx) -> Vec<Vec<u32>> {
+    let mut seqs = enum_seqs(&[512, 1024, 2048, 4096, 8192], ctx.qt(17, 21) * 512);
+    seqs.extend(small_later_seqs(&[512, 1024], ctx.qt(2, 3)));
+    // single big chunks and two-chunk sequences
+    for e in 9..=ctx.qt(16u32, 20u32) {
+        seqs.push(vec![1 << e]);
+    }
+    for a in 9..=15u32 {
+        for b in 0..=15u32 {
+            seqs.push(vec![1 << a, 1 << b]);
+        }
+    }
+    // the sequences named in the design notes
+    seqs.push(vec![512, 512, 1024]);
+    seqs.push(vec![512, 1, 1]);
+    seqs
+}
+
+fn random_seq(rng: &mut impl Rng, max_total: u32) -> Vec<u32> {
+    let mut v = vec![1u32 << rng.gen_range(9..=15)];
+    let mut total = v[0];
+    let n = rng.gen_range(0..12);
+    for _ in 0..n {
+        let c = 1u32 << rng.gen_range(0..=15);
+        if total + c > max_total {
+            break;
+        }
+        total += c;
+        v.push(c);
+    }
+    v
+}
+
+fn rb_one(ctx: &mut Ctx, family: &'static str, idx: usize, seq: &[u32], tags: &[u8]) {
+    let thorough = !ctx.quick();
+    let total: usize = seq.iter().map(|c| *c as usize).sum();
+    for (k, (rest, fin)) in finals(idx, thorough).into_iter().enumerate() {
+        for tag in tags {
+            let body = body_for(*tag, total + rest, idx as u32, false);
+            let rd = RDS[(idx + k) % RDS.len()];
+            let canon_case = ReaderCase { family, tag: *tag, body: &body, form: &LenForm::NewMin, rd: Rd::Slice, must_roundtrip: true };
+            let Some(canon) = reader_case(ctx, &canon_case, None) else { continue };
+            let form = LenForm::Partial(seq.to_vec(), Box::new(fin.clone()));
+            let rc = ReaderCase { family, tag: *tag, body: &body, form: &form, rd, must_roundtrip: true };
+            if reader_case(ctx, &rc, Some(&canon)).is_some() {
+                ctx.cover(&(family, seq, rest, form_class(&fin), *tag));
+                ctx.seen("RB.final_forms", format!("{}:{}", form_class(&fin), if rest == 0 { "empty" } else { "nonempty" }));
+                ctx.seen("RB.tags", format!("{tag}"));
+                ctx.tally("RB.framings", 1);
+            }
+        }
+    }
+    for c in seq {
+        ctx.seen("RB.chunk_sizes", format!("{c}"));
+    }
+    ctx.seen("RB.seq_lengths", format!("{}", seq.len().min(20)));
+}
+
+fn family_rb(ctx: &mut Ctx) {
+    let seqs = chunk_seq_catalogue(ctx);
+    ctx.tally("RB.sequences_enumerated", 0);
+    let group = 8usize;
+    for (gi, grp) in seqs.chunks(group).enumerate() {
+        if !ctx.mine() {
+            continue;
+        }
+        describe_case(&format!("RB: chunk sequences group {gi} first {:?}", grp[0]));
+        for (k, seq) in grp.iter().enumerate() {
+            let idx = gi * group + k;
+            let other = DATA_TAGS[idx % 5];
+            let tags: Vec<u8> = if other == 11 { vec![11] } else { vec![11, other] };
+            rb_one(ctx, "RB", idx, seq, &tags);
+            ctx.tally("RB.sequences_enumerated", 1);
+        }
+        if gi == 40 {
+            let total: usize = grp[0].iter().map(|c| *c as usize).sum();
+            let body = body_for(11, total + 3, 1, false);
+            let st = frame(11, &body, &LenForm::Partial(grp[0].clone(), Box::new(LenForm::New5))).unwrap_or_default();
+            ctx.sample(json!({"family": "RB", "sequence": grp[0], "tag": 11, "final": "3 octets, five-octet length", "stream": hexs(&st)}));
+        }
+    }
+    // random longer sequences, total up to 64 KiB
+    let nrand = ctx.qt(320u64, 6000u64);
+    for g in 0..nrand / 8 {
+        if !ctx.mine() {
+            continue;
+        }
+        describe_case(&format!("RB: random sequences group {g}"));
+        for k in 0..8u64 {
+            let i = g * 8 + k;
+            let mut rng = ctx.rng("RB.rand", i);
+            let seq = random_seq(&mut rng, 65536);
+            rb_one(ctx, "RBr", i as usize, &seq, &[DATA_TAGS[(i % 5) as usize]]);
+        }
+    }
+}
+
+// ------------------------------------------------------------------------------------------------
+// Family RM: the same through Message::from_bytes (literal, compressed(uncompressed) nesting,
+// skipped Marker/Padding packets in front)
+
+#[derive(Debug)]
+struct MsgRead {
+    data: Vec<u8>,
+    name: Vec<u8>,
+    layers: String,
+}
+
+fn read_message_from<'a, R: BufRead + std::fmt::Debug + Send + 'a>(src: R) -> Result<MsgRead, String> {
+    let mut msg = Message::from_bytes(src).map_err(|e| format!("from_bytes: {e}"))?;
+    let mut layers = String::new();
+    let mut depth = 0;
+    while msg.is_compressed() {
+        layers.push('c');
+        msg = msg.decompress().map_err(|e| format!("decompress: {e}"))?;
+        depth += 1;
+        if depth > 8 {
+            return Err("too deep".into());
+        }
+    }
+    if !msg.is_literal() {
+        return Err(format!("not a literal message (layers {layers:?})"));
+    }
+    layers.push('l');
+    let name = msg.literal_data_header().map(|h| h.file_name().to_vec()).unwrap_or_default();
+    let data = msg.as_data_vec().map_err(|e| format!("read: {e}"))?;
+    Ok(MsgRead { data, name, layers })
+}
+
+fn read_message(bytes: &[u8], rd: Rd) -> Result<MsgRead, String> {
+    match rd {
+        Rd::Slice => read_message_from(bytes),
+        Rd::Buf(c) => read_message_from(BufReader::with_capacity(c, bytes)),
+    }
+}
+
+#[allow(clippy::too_many_arguments)]
+fn rm_check(ctx: &mut Ctx, stream: &[u8], rd: Rd, payload: &[u8], name: &[u8], want_layers: &str, class: &str, desc: &str) -> bool {
+    let replay = || json!({"family": "RM", "desc": desc, "reader": format!("{rd:?}"), "stream": hexs(stream), "payload_len": payload.len()});
+    // the generator is judged by the reference first
+    match deframe(stream) {
+        Ok(_) => {}
+        Err(e) => {
+            ctx.inconclusive(format!("RM generator produced a stream the reference rejects: {e}"));
+            return false;
+        }
+    }
+    let Some((r, ev)) = ctx.guarded("C17/message", replay, || hooks::record(|| read_message(stream, rd))) else { return false };
+    ctx.eval();
+    note_body_events(ctx, &ev);
+    match r {
+        Err(e) => {
+            ctx.violation(format!("C17/message/rejects-legal/{class}"), format!("{desc}: {e}"), replay());
+        }
+        Ok(m) => {
+            if m.data != payload {
+                ctx.violation(
+                    format!("C17/message/data-differs/{class}"),
+                    format!("{desc}: read {} octets, payload has {} (first difference at {:?})", m.data.len(), payload.len(), first_diff(&m.data, payload)),
+                    replay(),
+                );
+            } else if m.name != name || m.layers != want_layers {
+                ctx.violation(
+                    format!("C17/message/header-differs/{class}"),
+                    format!("{desc}: file name {:?} layers {:?}, want {:?} {:?}", m.name, m.layers, name, want_layers),
+                    replay(),
+                );
+            }
+        }
+    }
+    true
+}
+
+fn family_rm(ctx: &mut Ctx) {
+    let name = b"msg.bin";
+    let hl = 2 + name.len() + 4;
+    // (1) literal, every non-partial form, boundary body lengths
+    let lens = boundary_lens(ctx);
+    for (li, blen) in lens.iter().enumerate() {
+        if *blen < hl {
+            continue;
+        }
+        if !ctx.mine() {
+            continue;
+        }
+        describe_case(&format!("RM1: literal body len {blen}"));
+        let payload = pat(blen - hl, 77 + li as u32);
+        let body = literal_body(name, &payload);
+        for (fi, form) in NONPARTIAL_FORMS.iter().enumerate() {
+            let Some(lit) = frame(11, &body, form) else { continue };
+            // skipped packets in front: marker / padding under several framings
+            let leads: [Option<(u8, Vec<u8>, LenForm)>; 5] = [
+                None,
+                Some((10, b"PGP".to_vec(), LenForm::New1)),
+                Some((10, b"PGP".to_vec(), LenForm::Old4)),
+                Some((21, pat(200, 3), LenForm::New2)),
+                Some((21, pat(5, 3), LenForm::New5)),
+            ];
+            let lead = &leads[(fi + li) % leads.len()];
+            let mut stream = vec![];
+            if let Some((t, b, f)) = lead {
+                stream.extend(frame(*t, b, f).unwrap());
+            }
+            stream.extend(lit);
+            let rd = RDS[(fi + li) % RDS.len()];
+            let desc = format!("literal {:?} body {} octets, lead {:?}", form, blen, lead.as_ref().map(|l| (l.0, &l.2)));
+            if rm_check(ctx, &stream, rd, &payload, name, "l", form_class(form), &desc) {
+                ctx.cover(&("RM1", *blen, fi));
+                ctx.seen("RM.literal_forms", form_class(form));
+            }
+        }
+    }
+    // (2) literal under partial sequences
+    let mut seqs = enum_seqs(&[512, 1024, 2048, 4096, 8192], ctx.qt(9, 13) * 512);
+    seqs.extend(small_later_seqs(&[512], 2));
+    for e in 14..=ctx.qt(16u32, 20u32) {
+        seqs.push(vec![1 << e]);
+    }
+    for (gi, grp) in seqs.chunks(8).enumerate() {
+        if !ctx.mine() {
+            continue;
+        }
+        describe_case(&format!("RM2: literal partial group {gi}"));
+        for (k, seq) in grp.iter().enumerate() {
+            let idx = gi * 8 + k;
+            let total: usize = seq.iter().map(|c| *c as usize).sum();
+            for (j, (rest, fin)) in finals(idx, !ctx.quick()).into_iter().enumerate() {
+                let payload = pat(total + rest - hl, idx as u32);
+                let body = literal_body(name, &payload);
+                let form = LenForm::Partial(seq.clone(), Box::new(fin.clone()));
+                let Some(stream) = frame(11, &body, &form) else { continue };
+                let rd = RDS[(idx + j) % RDS.len()];
+                let desc = format!("literal {} final {}+{:?}", short_form(&form), rest, fin);
+                if rm_check(ctx, &stream, rd, &payload, name, "l", "partial", &desc) {
+                    ctx.cover(&("RM2", seq, rest, form_class(&fin)));
+                    ctx.tally("RM.partial_literals", 1);
+                }
+            }
+        }
+    }
+    // (3) compressed (algorithm 0) around a literal: outer x inner framing
+    let payload_lens: Vec<usize> = ctx.qt(vec![0, 1, 180, 600, 2100, 9000], vec![0, 1, 170, 180, 190, 600, 2100, 8370, 9000, 66000]);
+    let mk_forms = |n: usize, salt: usize| -> Vec<LenForm> {
+        // forms that can carry a body of n octets
+        let mut v = vec![LenForm::NewMin, LenForm::New5, LenForm::Old2, LenForm::Old4, LenForm::OldIndeterminate];
+        if n < 192 {
+            v.push(LenForm::New1);
+            v.push(LenForm::Old1);
+        } else if n < 8384 {
+            v.push(LenForm::New2);
+        }
+        if n >= 512 {
+            v.push(LenForm::Partial(vec![512], Box::new(LenForm::NewMin)));
+            if n >= 512 + 7 {
+                v.push(LenForm::Partial(vec![512, 4, 2, 1], Box::new(LenForm::New5)));
+            }
+            let mut c = vec![];
+            let mut left = n;
+            let sizes = [1024usize, 512, 2048, 512, 8192, 4096];
+            let mut k = salt;
+            while left >= sizes[k % 6] && c.len() < 40 {
+                c.push(sizes[k % 6] as u32);
+                left -= sizes[k % 6];
+                k += 1;
+            }
+            if !c.is_empty() {
+                v.push(LenForm::Partial(c, Box::new(LenForm::NewMin)));
+            }
+            // exact: chunks consume everything, empty final chunk
+            if n % 512 == 0 {
+                v.push(LenForm::Partial(vec![512; n / 512], Box::new(LenForm::New1)));
+            }
+        }
+        v
+    };
+    for (pi, plen) in payload_lens.iter().enumerate() {
+        let payload = pat(*plen, 900 + pi as u32);
+        let lbody = literal_body(name, &payload);
+        let inner_forms = mk_forms(lbody.len(), pi);
+        for (ii, inner) in inner_forms.iter().enumerate() {
+            if !ctx.mine() {
+                continue;
+            }
+            describe_case(&format!("RM3: compressed payload {plen} inner {}", short_form(inner)));
+            let Some(inner_pkt) = frame(11, &lbody, inner) else { continue };
+            let mut cbody = vec![0u8];
+            cbody.extend(&inner_pkt);
+            for (oi, outer) in mk_forms(cbody.len(), pi + ii).iter().enumerate() {
+                let Some(stream) = frame(8, &cbody, outer) else { continue };
+                let rd = RDS[(oi + ii + pi) % RDS.len()];
+                let desc = format!("compressed[0] {} around literal {} payload {}", short_form(outer), short_form(inner), plen);
+                let class = format!("{}-in-{}", form_class(inner), form_class(outer));
+                if rm_check(ctx, &stream, rd, &payload, name, "cl", &class, &desc) {
+                    ctx.cover(&("RM3", *plen, ii, oi));
+                    ctx.seen("RM.nesting(inner-in-outer)", class);
+                }
+                // doubly nested once per inner form
+                if oi == 0 {
+                    let mut c2 = vec![0u8];
+                    c2.extend(&stream);
+                    if let Some(s2) = frame(8, &c2, &LenForm::Partial(vec![512], Box::new(LenForm::New5))).or_else(|| frame(8, &c2, &LenForm::Old2)) {
+                        rm_check(ctx, &s2, rd, &payload, name, "ccl", "double-nesting", &format!("compressed around {desc}"));
+                    }
+                }
+            }
+        }
+    }
+}
+
+// ------------------------------------------------------------------------------------------------
+// Family RZ: bodies written by the library itself (keys, signatures, session key packets,
+// encrypted containers) under every framing; re-framed certificates and signed messages through
+// the composed parsers.
+
+fn raw_list(pkts: &[RawPacket]) -> Vec<(u8, Vec<u8>)> {
+    pkts.iter().map(|p| (p.tag, p.body.clone())).collect()
+}
+
+/// deframe + writer legality of a library-written stream; violation on failure
+fn written_ok(ctx: &mut Ctx, what: &str, class: &str, stream: &[u8], replay: &dyn Fn() -> Value) -> Option<Vec<RawPacket>> {
+    ctx.eval();
+    match deframe(stream) {
+        Err(e) => {
+            ctx.violation(format!("C17/writer/deframe-error/{class}"), format!("{what}: reference deframer: {e}"), replay());
+            None
+        }
+        Ok(p) => {
+            if let Err(e) = check_written(&p) {
+                ctx.violation(format!("C17/writer/illegal/{class}"), format!("{what}: {e}"), replay());
+                return None;
+            }
+            let consumed: usize = p.iter().map(|r| r.encoded_len).sum();
+            if consumed != stream.len() {
+                ctx.violation(format!("C17/writer/length-mismatch/{class}"), format!("{what}: packets cover {consumed} of {} octets", stream.len()), replay());
+                return None;
+            }
+            Some(p)
+        }
+    }
+}
+
+fn rotate_form(tag: u8, len: usize, k: usize, last: bool) -> LenForm {
+    let mut cands = vec![LenForm::NewMin, LenForm::New5];
+    if len < 192 {
+        cands.push(LenForm::New1);
+    } else if len < 8384 {
+        cands.push(LenForm::New2);
+    }
+    if tag < 16 {
+        if len < 256 {
+            cands.push(LenForm::Old1);
+        }
+        if len < 65536 {
+            cands.push(LenForm::Old2);
+        }
+        cands.push(LenForm::Old4);
+        if last {
+            cands.push(LenForm::OldIndeterminate);
+        }
+    }
+    if is_data_tag(tag) && len >= 512 {
+        cands.push(LenForm::Partial(vec![512], Box::new(LenForm::NewMin)));
+        if len >= 1024 + 3 {
+            cands.push(LenForm::Partial(vec![512, 512, 2, 1], Box::new(LenForm::New5)));
+        }
+    }
+    cands[k % cands.len()].clone()
+}
+
+fn family_rz(ctx: &mut Ctx) {
+    let specs = [
+        zoo::Spec::simple(false, zoo::Alg::Ed25519Legacy, Some(zoo::Alg::EcdhCv25519)),
+        zoo::Spec::simple(true, zoo::Alg::Ed25519, Some(zoo::Alg::X25519)),
+        zoo::Spec::simple(false, zoo::Alg::Rsa2048, Some(zoo::Alg::Rsa2048)),
+        zoo::Spec::simple(false, zoo::Alg::EcdsaP256, Some(zoo::Alg::EcdhP256)),
+    ];
+    for (ki, spec) in specs.iter().enumerate() {
+        if !ctx.mine() {
+            continue;
+        }
+        describe_case(&format!("RZ: key {}", spec.name()));
+        let key = zoo::key(spec, 0);
+        let pubkey = key.to_public_key();
+        let tsk = key.to_bytes().expect("tsk bytes");
+        let tpk = pubkey.to_bytes().expect("tpk bytes");
+        let kname = spec.name();
+        let Some(tsk_pk) = written_ok(ctx, "SignedSecretKey::to_bytes", "key", &tsk, &|| json!({"family": "RZ", "key": kname, "stream": hexs(&tsk)})) else { continue };
+        let Some(tpk_pk) = written_ok(ctx, "SignedPublicKey::to_bytes", "key", &tpk, &|| json!({"family": "RZ", "key": kname, "stream": hexs(&tpk)})) else { continue };
+        ctx.tally("W.key_streams", 2);
+
+        // messages made with the key: signed; signed + encrypted to key and password (v1 / v2)
+        let payload = pat(3000, ki as u32);
+        let mut streams: Vec<(String, Vec<u8>)> = vec![];
+        {
+            let mut b = MessageBuilder::from_bytes("s.bin", payload.clone());
+            b.sign(&key.primary_key, Password::empty(), HashAlgorithm::Sha256);
+            match b.to_vec(ctx.rng("RZ.sign", ki as u64)) {
+                Ok(v) => streams.push(("signed".into(), v)),
+                Err(e) => ctx.inconclusive(format!("RZ: cannot build signed message: {e}")),
+            }
+        }
+        {
+            let mut rng = ctx.rng("RZ.enc1", ki as u64);
+            let mut b = MessageBuilder::from_bytes("e.bin", payload.clone()).seipd_v1(&mut rng, SymmetricKeyAlgorithm::AES128);
+            let s2k = StringToKey::new_iterated(&mut rng, Default::default(), 2);
+            let r = b
+                .encrypt_with_password(s2k, &"pw".into())
+                .and_then(|b| b.encrypt_to_key(ctx_rng(1), &pubkey.public_subkeys[0]).map(|_| ()));
+            match r.and_then(|_| b.to_vec(&mut rng)) {
+                Ok(v) => streams.push(("seipd1".into(), v)),
+                Err(e) => ctx.inconclusive(format!("RZ: cannot build v1 encrypted message: {e}")),
+            }
+        }
+        if spec.v6 {
+            let mut rng = ctx.rng("RZ.enc2", ki as u64);
+            let mut b = MessageBuilder::from_bytes("e.bin", payload.clone()).seipd_v2(&mut rng, SymmetricKeyAlgorithm::AES128, AeadAlgorithm::Ocb, ChunkSize::C256B);
+            let s2k = StringToKey::new_iterated(&mut rng, Default::default(), 2);
+            let r = b
+                .encrypt_with_password(ctx_rng(2), s2k, &"pw".into())
+                .and_then(|b| b.encrypt_to_key(ctx_rng(3), &pubkey.public_subkeys[0]).map(|_| ()));
+            match r.and_then(|_| b.to_vec(&mut rng)) {
+                Ok(v) => streams.push(("seipd2".into(), v)),
+                Err(e) => ctx.inconclusive(format!("RZ: cannot build v2 encrypted message: {e}")),
+            }
+        }
+        let mut bodies: Vec<(String, u8, Vec<u8>)> = vec![];
+        for (i, p) in tsk_pk.iter().enumerate() {
+            bodies.push((format!("tsk[{i}]"), p.tag, p.body.clone()));
+        }
+        for (i, p) in tpk_pk.iter().enumerate() {
+            bodies.push((format!("tpk[{i}]"), p.tag, p.body.clone()));
+        }
+        let mut signed_pk = None;
+        for (name, st) in &streams {
+            let Some(pk) = written_ok(ctx, &format!("MessageBuilder {name}"), "message", st, &|| json!({"family": "RZ", "key": kname, "msg": name, "stream": hexs(st)})) else { continue };
+            for (i, p) in pk.iter().enumerate() {
+                bodies.push((format!("{name}[{i}]"), p.tag, p.body.clone()));
+            }
+            if name == "signed" {
+                signed_pk = Some(pk);
+            }
+        }
+        // (1) each body under every non-partial form (and partial ones for the data packets)
+        for (bi, (origin, tag, body)) in bodies.iter().enumerate() {
+            let canon_case = ReaderCase { family: "RZ", tag: *tag, body, form: &LenForm::NewMin, rd: Rd::Slice, must_roundtrip: true };
+            let Some(canon) = reader_case(ctx, &canon_case, None) else { continue };
+            let mut forms: Vec<LenForm> = NONPARTIAL_FORMS.to_vec();
+            if is_data_tag(*tag) && body.len() >= 1030 {
+                forms.push(LenForm::Partial(vec![512], Box::new(LenForm::NewMin)));
+                forms.push(LenForm::Partial(vec![512, 512], Box::new(LenForm::New5)));
+                forms.push(LenForm::Partial(vec![1024, 2, 1, 1], Box::new(LenForm::NewMin)));
+            }
+            for (fi, form) in forms.iter().enumerate() {
+                let rc = ReaderCase { family: "RZ", tag: *tag, body, form, rd: RDS[(bi + fi) % RDS.len()], must_roundtrip: true };
+                if reader_case(ctx, &rc, Some(&canon)).is_some() {
+                    ctx.cover(&("RZ", ki, origin, fi));
+                    ctx.seen("RZ.tags", format!("{tag}"));
+                }
+            }
+        }
+        // (2) the certificate with every packet re-framed, through the composed key parser
+        let want = raw_list(&tsk_pk);
+        for variant in 0..ctx.qt(8usize, 40usize) {
+            let mut stream = vec![];
+            let mut used = vec![];
+            for (i, p) in tsk_pk.iter().enumerate() {
+                let f = rotate_form(p.tag, p.body.len(), variant * 3 + i * 5 + ki, i + 1 == tsk_pk.len());
+                stream.extend(frame(p.tag, &p.body, &f).expect("frame"));
+                used.push(form_class(&f));
+            }
+            let replay = || json!({"family": "RZ", "key": kname, "variant": variant, "forms": used, "stream": hexs(&stream)});
+            let Some(r) = ctx.guarded("C17/composed-key", replay, || SignedSecretKey::from_bytes(&stream[..])) else { continue };
+            ctx.eval();
+            match r {
+                Err(e) => ctx.violation("C17/composed-key/rejects-legal", format!("certificate with packet framings {used:?} rejected: {e}"), replay()),
+                Ok(k2) => {
+                    let same_fp = k2.fingerprint() == key.fingerprint();
+                    let bind = k2.verify_bindings();
+                    let re = k2.to_bytes().ok().and_then(|b| deframe(&b).ok()).map(|p| raw_list(&p));
+                    if !same_fp || bind.is_err() || re.as_ref() != Some(&want) {
+                        ctx.violation(
+                            "C17/composed-key/differs",
+                            format!("certificate with packet framings {used:?}: fingerprint same={same_fp}, bindings={:?}, packets equal={}", bind.err().map(|e| e.to_string()), re.as_ref() == Some(&want)),
+                            replay(),
+                        );
+                    }
+                    ctx.cover(&("RZ.key", ki, variant));
+                }
+            }
+        }
+        // (3) the signed message with every packet re-framed: data and signature must survive
+        if let Some(pk) = signed_pk {
+            for variant in 0..ctx.qt(10usize, 60usize) {
+                let mut stream = vec![];
+                let mut used = vec![];
+                for (i, p) in pk.iter().enumerate() {
+                    let f = rotate_form(p.tag, p.body.len(), variant * 7 + i * 3 + ki, i + 1 == pk.len());
+                    stream.extend(frame(p.tag, &p.body, &f).expect("frame"));
+                    used.push(form_class(&f));
+                }
+                let rd = RDS[variant % RDS.len()];
+                let replay = || json!({"family": "RZ", "key": kname, "signed-variant": variant, "forms": used, "stream": hexs(&stream)});
+                let vk = &pubkey.primary_key;
+                let run = |src: &[u8]| -> Result<Vec<u8>, String> {
+                    let mut m = match rd {
+                        Rd::Slice => Message::from_bytes(src),
+                        Rd::Buf(c) => Message::from_bytes(BufReader::with_capacity(c, src)),
+                    }
+                    .map_err(|e| format!("from_bytes: {e}"))?;
+                    let d = m.as_data_vec().map_err(|e| format!("read: {e}"))?;
+                    m.verify(vk).map_err(|e| format!("verify: {e}"))?;
+                    Ok(d)
+                };
+                let Some(r) = ctx.guarded("C17/message", replay, || run(&stream)) else { continue };
+                ctx.eval();
+                match r {
+                    Err(e) => ctx.violation("C17/message/rejects-legal/signed-reframed", format!("signed message with packet framings {used:?}: {e}"), replay()),
+                    Ok(d) if d != payload => ctx.violation("C17/message/data-differs/signed-reframed", format!("signed message with packet framings {used:?}: data differs"), replay()),
+                    Ok(_) => ctx.cover(&("RZ.signed", ki, variant)),
+                }
+            }
+        }
+    }
+}
+
+fn ctx_rng(n: u64) -> rand_chacha::ChaCha8Rng {
+    use rand::SeedableRng;
+    rand_chacha::ChaCha8Rng::seed_from_u64(0xC17 + n)
+}
+
+// ------------------------------------------------------------------------------------------------
+// Family I: illegal framings
+
+struct Illegal<'a> {
+    class: &'a str,
+    tag: u8,
+    /// encoding of the broken packet
+    pkt: Vec<u8>,
+    with_tail: bool,
+    /// the first header (type octet and first length) is complete
+    header_complete: bool,
+    desc: String,
+    rd: Rd,
+}
+
+fn illegal_case(ctx: &mut Ctx, c: Illegal) {
+    let (lt, lb) = lead_packet();
+    let mut stream = frame(lt, &lb, &LenForm::New1).unwrap();
+    let lead_len = stream.len();
+    stream.extend(&c.pkt);
+    if c.with_tail {
+        let (tt, tb) = tail_packet();
+        stream.extend(frame(tt, &tb, &LenForm::New1).unwrap());
+    }
+    let replay = || json!({"family": "I", "class": c.class, "tag": c.tag, "desc": c.desc, "reader": format!("{:?}", c.rd), "stream": hexs(&stream)});
+    if deframe(&stream).is_ok() {
+        ctx.inconclusive(format!("I generator: reference accepts a stream of class {}", c.class));
+        return;
+    }
+    let Some(parsed) = ctx.guarded("C17/illegal", replay, || run_parser(&stream, c.rd, 24)) else { return };
+    ctx.eval();
+    if parsed.items.first() != Some(&Item::Ok { tag: lt, newfmt: true, body: lb }) {
+        ctx.violation(format!("C17/illegal/lead-lost/{}", c.class), format!("{}: items {:?}", c.desc, parsed.items.iter().map(|i| i.short()).collect::<Vec<_>>()), replay());
+        return;
+    }
+    if let Some(okpos) = parsed.items.iter().skip(1).position(|i| i.is_ok()) {
+        ctx.violation(
+            format!("C17/illegal/accepted/{}", c.class),
+            format!("{}: parser returned [{}] (item {} is a packet made from an illegally framed / broken body; the reference deframer rejects the stream)", c.desc, parsed.items.iter().map(|i| i.short()).collect::<Vec<_>>().join(", "), okpos + 1),
+            replay(),
+        );
+    } else if c.header_complete && !parsed.items.iter().any(|i| !i.is_ok()) {
+        ctx.violation(format!("C17/illegal/no-error/{}", c.class), format!("{}: parser ended silently after the lead packet", c.desc), replay());
+    }
+    // Message path
+    if c.tag == 11 || c.tag == 8 {
+        // the broken packet alone, or behind the (skipped) marker packet; no tail
+        let ms = &stream[if c.rd == Rd::Slice { lead_len } else { 0 }..lead_len + c.pkt.len()];
+        let Some(r) = ctx.guarded("C17/illegal-message", replay, || read_message(ms, c.rd)) else { return };
+        ctx.eval();
+        if let Ok(m) = r {
+            ctx.violation(
+                format!("C17/illegal/message-accepted/{}", c.class),
+                format!("{}: Message read {} octets without error (layers {})", c.desc, m.data.len(), m.layers),
+                replay(),
+            );
+        }
+    }
+    ctx.cover(&("I", c.class, c.tag, &c.pkt));
+    ctx.seen("I.classes", c.class);
+}
+
+fn family_illegal(ctx: &mut Ctx) {
+    // I1: partial body lengths on packets that are not data packets
+    for tag in 0..64u8 {
+        if is_data_tag(tag) {
+            continue;
+        }
+        if !ctx.mine() {
+            continue;
+        }
+        describe_case(&format!("I1: partial on tag {tag}"));
+        for (k, first) in [512u32, 1024, 8192].into_iter().enumerate() {
+            for (j, rest) in [0usize, 40, 300].into_iter().enumerate() {
+                let body = body_for(tag, first as usize + rest, 5, true);
+                let f = LenForm::Partial(vec![first], Box::new(LenForm::NewMin));
+                let pkt = frame(tag, &body, &f).unwrap();
+                illegal_case(ctx, Illegal { class: "partial-non-data", tag, pkt, with_tail: true, header_complete: true, desc: format!("tag {tag} with partial first chunk {first} + final {rest}"), rd: RDS[(k + j + tag as usize) % RDS.len()] });
+            }
+        }
+        ctx.seen("I.partial_non_data_tags", format!("{tag}"));
+    }
+    // I2: first partial chunk shorter than 512
+    for tag in DATA_TAGS {
+        for e in 0..=8u32 {
+            if !ctx.mine() {
+                continue;
+            }
+            describe_case(&format!("I2: first chunk 2^{e} on tag {tag}"));
+            let first = 1u32 << e;
+            let laters: [Vec<u32>; 5] = [vec![], vec![512], vec![first], vec![1024, 512], vec![256, 256]];
+            for (k, later) in laters.iter().enumerate() {
+                for (j, (rest, fin)) in [(0usize, LenForm::New1), (30, LenForm::New1), (600, LenForm::New2), (20, LenForm::New5)].into_iter().enumerate() {
+                    let mut seq = vec![first];
+                    seq.extend(later);
+                    let total: usize = seq.iter().map(|c| *c as usize).sum();
+                    let body = body_for(tag, total + rest, e, true);
+                    let pkt = frame(tag, &body, &LenForm::Partial(seq.clone(), Box::new(fin.clone()))).unwrap();
+                    let rd = RDS[(k + j + e as usize) % RDS.len()];
+                    illegal_case(ctx, Illegal { class: "first-chunk-lt-512", tag, pkt: pkt.clone(), with_tail: true, header_complete: true, desc: format!("tag {tag} chunks {seq:?} final {rest}"), rd });
+                    // truncated variants (nothing after)
+                    for cut in [1usize, pkt.len() / 2, pkt.len() - 2] {
+                        if cut < pkt.len() - 1 {
+                            illegal_case(ctx, Illegal { class: "first-chunk-lt-512-truncated", tag, pkt: pkt[..pkt.len() - cut].to_vec(), with_tail: false, header_complete: true, desc: format!("tag {tag} chunks {seq:?} final {rest}, last {cut} octets missing"), rd });
+                        }
+                    }
+                }
+            }
+            ctx.seen("I.short_first_chunk(tag,exp)", format!("{tag}:{e}"));
+        }
+    }
+    // I3: declared length larger than what follows (every length form)
+    for tag in 0..64u8 {
+        if !ctx.mine() {
+            continue;
+        }
+        describe_case(&format!("I3: truncated bodies tag {tag}"));
+        let forms: [(LenForm, usize); 9] = [
+            (LenForm::New1, 100),
+            (LenForm::New1, 6),
+            (LenForm::New2, 1000),
+            (LenForm::New5, 100),
+            (LenForm::New5, 9000),
+            (LenForm::Old1, 200),
+            (LenForm::Old2, 2000),
+            (LenForm::Old4, 300),
+            (LenForm::Old4, 70000),
+        ];
+        for (fi, (form, len)) in forms.iter().enumerate() {
+            let body = body_for(tag, *len, 9, true);
+            let Some(pkt) = frame(tag, &body, form) else { continue };
+            let hdr = pkt.len() - len;
+            for (ci, missing) in [1usize, 2, len / 2, *len - 1, *len].into_iter().enumerate() {
+                let cut = pkt[..pkt.len() - missing].to_vec();
+                illegal_case(ctx, Illegal { class: &format!("truncated-{}", form_class(form)), tag, pkt: cut, with_tail: false, header_complete: true, desc: format!("tag {tag} {form:?} declared {len}, {missing} octets missing"), rd: RDS[(fi + ci + tag as usize) % RDS.len()] });
+            }
+            // cut inside the length octets
+            for keep in 1..hdr {
+                illegal_case(ctx, Illegal { class: &format!("truncated-header-{}", form_class(form)), tag, pkt: pkt[..keep].to_vec(), with_tail: false, header_complete: false, desc: format!("tag {tag} {form:?}: only {keep} of {hdr} header octets"), rd: RDS[(fi + keep) % RDS.len()] });
+            }
+        }
+        ctx.seen("I.truncated_tags", format!("{tag}"));
+    }
+    // I3p: truncation inside partial bodies, missing final chunk
+    for tag in DATA_TAGS {
+        let variants: [(Vec<u32>, usize, LenForm); 7] = [
+            (vec![512], 50, LenForm::New1),
+            (vec![512], 300, LenForm::New2),
+            (vec![512], 10, LenForm::New5),
+            (vec![1024, 512], 0, LenForm::New1),
+            (vec![512, 1, 1], 0, LenForm::New1),
+            (vec![8192, 8192], 9000, LenForm::New5),
+            (vec![512, 16], 200, LenForm::New2),
+        ];
+        for (vi, (seq, rest, fin)) in variants.iter().enumerate() {
+            if !ctx.mine() {
+                continue;
+            }
+            describe_case(&format!("I3p: truncated partial tag {tag} variant {vi}"));
+            let total: usize = seq.iter().map(|c| *c as usize).sum();
+            let body = body_for(tag, total + rest, 11, true);
+            let pkt = frame(tag, &body, &LenForm::Partial(seq.clone(), Box::new(fin.clone()))).unwrap();
+            // offsets of chunk boundaries in the encoding
+            let mut cuts: Vec<(usize, &'static str)> = vec![];
+            let mut pos = 2usize; // tag octet + first partial length octet
+            cuts.push((pos, "missing-final-chunk")); // nothing of the first chunk at all
+            for (i, c) in seq.iter().enumerate() {
+                cuts.push((pos + 1, "truncated-partial-chunk"));
+                cuts.push((pos + *c as usize / 2, "truncated-partial-chunk"));
+                cuts.push((pos + *c as usize - 1, "truncated-partial-chunk"));
+                pos += *c as usize;
+                cuts.push((pos, "missing-final-chunk")); // stream ends right after a partial chunk
+                if i + 1 < seq.len() {
+                    pos += 1;
+                }
+            }
+            // inside the final length octets and the final chunk
+            let fin_len_octets = match fin {
+                LenForm::New1 => 1,
+                LenForm::New2 => 2,
+                _ => 5,
+            };
+            for k in 1..fin_len_octets {
+                cuts.push((pos + k, "truncated-final-length"));
+            }
+            if *rest > 0 {
+                cuts.push((pos + fin_len_octets, "truncated-final-chunk"));
+                cuts.push((pos + fin_len_octets + rest / 2, "truncated-final-chunk"));
+                cuts.push((pkt.len() - 1, "truncated-final-chunk"));
+            }
+            for (ci, (at, class)) in cuts.iter().enumerate() {
+                if *at >= pkt.len() || *at < 2 {
+                    continue;
+                }
+                // "nothing of the first chunk": only when the chunk is declared non-empty (always)
+                illegal_case(ctx, Illegal { class, tag, pkt: pkt[..*at].to_vec(), with_tail: false, header_complete: true, desc: format!("tag {tag} chunks {seq:?} final {rest} ({fin:?}) cut at {at} of {}", pkt.len()), rd: RDS[(ci + vi) % RDS.len()] });
+            }
+        }
+    }
+    // I4: huge partial lengths declared over short bodies
+    for tag in DATA_TAGS {
+        for e in 17..=30u32 {
+            if !ctx.mine() {
+                continue;
+            }
+            describe_case(&format!("I4: 2^{e} declared on tag {tag}"));
+            for (k, avail) in [0usize, 1, 600, 5000].into_iter().enumerate() {
+                let body = body_for(tag, avail.max(1), e, true);
+                let mut pkt = vec![0xC0 | tag, 224 + e as u8];
+                pkt.extend(&body[..avail]);
+                illegal_case(ctx, Illegal { class: "big-partial-over-short-body", tag, pkt, with_tail: false, header_complete: true, desc: format!("tag {tag}: first chunk 2^{e} declared, {avail} octets follow"), rd: RDS[(k + e as usize) % RDS.len()] });
+                // as a later chunk after a legal first one
+                let body = body_for(tag, 512 + avail, e, true);
+                let mut pkt = vec![0xC0 | tag, 224 + 9];
+                pkt.extend(&body[..512]);
+                pkt.push(224 + e as u8);
+                pkt.extend(&body[512..]);
+                illegal_case(ctx, Illegal { class: "big-partial-over-short-body", tag, pkt, with_tail: false, header_complete: true, desc: format!("tag {tag}: chunk 512 then chunk 2^{e} declared, {avail} octets follow"), rd: RDS[(k + e as usize + 1) % RDS.len()] });
+            }
+            ctx.seen("I.big_exponents", format!("{e}"));
+        }
+    }
+    // I5: legal compressed container around an illegally framed literal (Message path only)
+    let name = b"in.bin";
+    let payload = ascii(2000, 5);
+    let lbody = literal_body(name, &payload);
+    let lbody: Vec<u8> = lbody.iter().map(|b| b & 0x7f).collect();
+    let mut inners: Vec<(&'static str, Vec<u8>)> = vec![];
+    for e in [0u32, 4, 8] {
+        inners.push(("nested-first-chunk-lt-512", frame(11, &lbody, &LenForm::Partial(vec![1 << e, 512], Box::new(LenForm::NewMin))).unwrap()));
+    }
+    let full = frame(11, &lbody, &LenForm::New2).unwrap();
+    inners.push(("nested-truncated", full[..full.len() - 1].to_vec()));
+    inners.push(("nested-truncated", full[..full.len() / 2].to_vec()));
+    let full5 = frame(11, &lbody, &LenForm::Old4).unwrap();
+    inners.push(("nested-truncated", full5[..full5.len() - 7].to_vec()));
+    let part = frame(11, &lbody, &LenForm::Partial(vec![1024, 512], Box::new(LenForm::New2))).unwrap();
+    inners.push(("nested-missing-final", part[..2 + 1024 + 1 + 512].to_vec()));
+    inners.push(("nested-truncated", part[..2 + 1024 + 1 + 100].to_vec()));
+    inners.push(("nested-truncated", part[..part.len() - 1].to_vec()));
+    for (ii, (class, inner)) in inners.iter().enumerate() {
+        if !ctx.mine() {
+            continue;
+        }
+        describe_case(&format!("I5: nested illegal {class} #{ii}"));
+        let mut cbody = vec![0u8];
+        cbody.extend(inner);
+        let outers = [
+            LenForm::NewMin,
+            LenForm::New5,
+            LenForm::Old2,
+            LenForm::OldIndeterminate,
+            LenForm::Partial(vec![512], Box::new(LenForm::NewMin)),
+            LenForm::Partial(vec![512, 8, 1], Box::new(LenForm::New5)),
+        ];
+        for (oi, outer) in outers.iter().enumerate() {
+            let Some(stream) = frame(8, &cbody, outer) else { continue };
+            let rd = RDS[(oi + ii) % RDS.len()];
+            let replay = || json!({"family": "I5", "class": class, "outer": form_json(outer), "stream": hexs(&stream)});
+            // reference: outer legal, inner illegal
+            let ref_outer = deframe(&stream);
+            let ref_inner = ref_outer.as_ref().ok().and_then(|p| p.first()).map(|p| deframe(&p.body[1..]));
+            if !matches!(ref_inner, Some(Err(_))) {
+                ctx.inconclusive("I5 generator: reference does not see legal outer / illegal inner");
+                continue;
+            }
+            let Some(r) = ctx.guarded("C17/illegal-message", replay, || read_message(&stream, rd)) else { continue };
+            ctx.eval();
+            if let Ok(m) = r {
+                ctx.violation(format!("C17/illegal/message-accepted/{class}"), format!("compressed {} around illegally framed literal: read {} octets without error", short_form(outer), m.data.len()), replay());
+            }
+            ctx.cover(&("I5", ii, oi));
+            ctx.seen("I.classes", *class);
+        }
+    }
+}
+
+// ------------------------------------------------------------------------------------------------
+// Family W: everything MessageBuilder writes is deframed by the reference
+
+#[derive(Clone, Copy, Debug, PartialEq, Eq, Hash)]
+enum Enc {
+    None,
+    V1,
+    V2,
+}
+
+#[derive(Clone, Debug, Hash)]
+struct WCfg {
+    cs: u32,
+    size: usize,
+    from_reader: bool,
+    sched: usize,
+    comp: Option<u8>,
+    enc: Enc,
+    sign: bool,
+}
+
+impl WCfg {
+    fn class(&self) -> String {
+        format!(
+            "{}-{}-{}",
+            if self.from_reader { "reader" } else { "bytes" },
+            match self.comp {
+                None => "plain",
+                Some(0) => "uncompressed",
+                Some(1) => "zip",
+                _ => "zlib",
+            },
+            match self.enc {
+                Enc::None => "clear",
+                Enc::V1 => "seipd1",
+                Enc::V2 => "seipd2",
+            }
+        )
+    }
+}
+
+const W_NAME: &[u8] = b"w.bin";
+
+fn w_finish<'a, R: Read>(mut b: MessageBuilder<'a, R>, cfg: &WCfg, key: &'a SignedSecretKey, seed: u64) -> Result<(Vec<u8>, Option<Vec<u8>>), String> {
+    let mut rng = ctx_rng(seed);
+    b.partial_chunk_size(cfg.cs).map_err(|e| e.to_string())?;
+    if let Some(c) = cfg.comp {
+        b.compression(match c {
+            0 => CompressionAlgorithm::Uncompressed,
+            1 => CompressionAlgorithm::ZIP,
+            _ => CompressionAlgorithm::ZLIB,
+        });
+    }
+    if cfg.sign {
+        b.sign(&key.primary_key, Password::empty(), HashAlgorithm::Sha256);
+    }
+    match cfg.enc {
+        Enc::None => b.to_vec(&mut rng).map(|v| (v, None)).map_err(|e| e.to_string()),
+        Enc::V1 => {
+            let mut b = b.seipd_v1(&mut rng, SymmetricKeyAlgorithm::AES128);
+            let s2k = StringToKey::new_iterated(&mut rng, Default::default(), 2);
+            b.encrypt_with_password(s2k, &"pw".into()).map_err(|e| e.to_string())?;
+            let sk = b.session_key().as_ref().to_vec();
+            b.to_vec(&mut rng).map(|v| (v, Some(sk))).map_err(|e| e.to_string())
+        }
+        Enc::V2 => {
+            let aead = [AeadAlgorithm::Ocb, AeadAlgorithm::Eax, AeadAlgorithm::Gcm][(seed % 3) as usize];
+            let chunk = [ChunkSize::C64B, ChunkSize::C1KiB, ChunkSize::C4KiB][((seed / 3) % 3) as usize];
+            let mut b = b.seipd_v2(&mut rng, SymmetricKeyAlgorithm::AES128, aead, chunk);
+            let s2k = StringToKey::new_iterated(&mut rng, Default::default(), 2);
+            b.encrypt_with_password(ctx_rng(seed + 1), s2k, &"pw".into()).map_err(|e| e.to_string())?;
+            let sk = b.session_key().as_ref().to_vec();
+            b.to_vec(&mut rng).map(|v| (v, Some(sk))).map_err(|e| e.to_string())
+        }
+    }
+}
+
+#[derive(Default, Debug)]
+struct PlainInfo {
+    ops: usize,
+    sigs: usize,
+    literals: usize,
+    name: Vec<u8>,
+    payload: Vec<u8>,
+    lit_chunks: Vec<u32>,
+    cmp: Vec<(u8, Vec<u32>)>,
+}
+
+fn inflate(alg: u8, data: &[u8]) -> Result<Vec<u8>, String> {
+    let mut out = vec![];
+    match alg {
+        0 => out.extend_from_slice(data),
+        1 => {
+            flate2::read::DeflateDecoder::new(data).read_to_end(&mut out).map_err(|e| format!("inflate: {e}"))?;
+        }
+        2 => {
+            flate2::read::ZlibDecoder::new(data).read_to_end(&mut out).map_err(|e| format!("zlib: {e}"))?;
+        }
+        a => return Err(format!("compression algorithm {a} not handled by the harness")),
+    }
+    Ok(out)
+}
+
+/// (symptom, detail)
+type WErr = (&'static str, String);
+
+fn analyse_plain(stream: &[u8], depth: usize, info: &mut PlainInfo) -> Result<(), WErr> {
+    let pk = deframe(stream).map_err(|e| ("deframe-error", format!("depth {depth}: {e}")))?;
+    check_written(&pk).map_err(|e| ("illegal", format!("depth {depth}: {e}")))?;
+    let consumed: usize = pk.iter().map(|r| r.encoded_len).sum();
+    if consumed != stream.len() {
+        return Err(("length-mismatch", format!("depth {depth}: packets cover {consumed} of {}", stream.len())));
+    }
+    for p in &pk {
+        match p.tag {
+            4 => info.ops += 1,
+            2 => info.sigs += 1,
+            11 => {
+                info.literals += 1;
+                let b = &p.body;
+                if b.len() < 6 || b.len() < 6 + b[1] as usize {
+                    return Err(("structure", format!("literal body of {} octets too short", b.len())));
+                }
+                let nl = b[1] as usize;
+                info.name = b[2..2 + nl].to_vec();
+                info.payload = b[6 + nl..].to_vec();
+                info.lit_chunks = p.partial_chunks.clone();
+            }
+            8 => {
+                if depth >= 3 {
+                    return Err(("structure", "compression nested too deep".into()));
+                }
+                if p.body.is_empty() {
+                    return Err(("structure", "empty compressed packet".into()));
+                }
+                info.cmp.push((p.body[0], p.partial_chunks.clone()));
+                let inner = inflate(p.body[0], &p.body[1..]).map_err(|e| ("compressed-body-corrupt", e))?;
+                analyse_plain(&inner, depth + 1, info)?;
+            }
+            t => return Err(("structure", format!("unexpected packet type {t} at depth {depth}"))),
+        }
+    }
+    Ok(())
+}
+
+fn w_case(ctx: &mut Ctx, cfg: &WCfg, key: &SignedSecretKey, seed: u64) {
+    let compressible = cfg.comp.is_some_and(|c| c > 0) && seed % 2 == 1;
+    let payload: Vec<u8> = if compressible { (0..cfg.size).map(|i| b"framing "[i % 8]).collect() } else { pat(cfg.size, seed as u32) };
+    let class = cfg.class();
+    let replay = || json!({"family": "W", "cfg": format!("{cfg:?}"), "seed": seed, "compressible": compressible});
+    let scheds = [Sched::All, Sched::Random(seed, 700), Sched::Cycle(vec![511, 1, 512]), Sched::Fixed(4096), Sched::Fixed(1)];
+    let Some((res, ev)) = ctx.guarded("C17/writer", replay, || {
+        hooks::record(|| {
+            if cfg.from_reader {
+                let src = SchedReader::new(payload.clone(), scheds[cfg.sched % scheds.len()].clone());
+                w_finish(MessageBuilder::from_reader(W_NAME, src), cfg, key, seed)
+            } else {
+                w_finish(MessageBuilder::from_bytes(W_NAME, payload.clone()), cfg, key, seed)
+            }
+        })
+    }) else {
+        return;
+    };
+    ctx.eval();
+    let (out, sk) = match res {
+        Ok(x) => x,
+        Err(e) => {
+            ctx.violation(format!("C17/writer/builder-error/{class}"), format!("MessageBuilder failed: {e}"), replay());
+            return;
+        }
+    };
+    let replay = || json!({"family": "W", "cfg": format!("{cfg:?}"), "seed": seed, "compressible": compressible, "stream": hexs(&out)});
+    // outer layer
+    let mut info = PlainInfo::default();
+    let mut enc_chunks: Option<Vec<u32>> = None;
+    let verdict: Result<(), WErr> = (|| {
+        if cfg.enc == Enc::None {
+            return analyse_plain(&out, 0, &mut info);
+        }
+        let pk = deframe(&out).map_err(|e| ("deframe-error", format!("outer: {e}")))?;
+        check_written(&pk).map_err(|e| ("illegal", format!("outer: {e}")))?;
+        let tags: Vec<u8> = pk.iter().map(|p| p.tag).collect();
+        if tags != [3, 18] {
+            return Err(("structure", format!("encrypted message has packet types {tags:?}, expected [3, 18]")));
+        }
+        let body = &pk[1].body;
+        enc_chunks = Some(pk[1].partial_chunks.clone());
+        let sk = sk.as_deref().unwrap_or_default();
+        let plain = match cfg.enc {
+            Enc::V1 => {
+                if body.first() != Some(&1) {
+                    return Err(("structure", "SEIPD version octet is not 1".into()));
+                }
+                rfc::sym::seipd_v1_decrypt(7, sk, &body[1..]).map_err(|e| ("encrypted-body-corrupt", format!("reference SEIPDv1 decryption of the deframed body: {e:?}")))?
+            }
+            _ => rfc::sym::seipd_v2_decrypt(body, sk).map_err(|e| ("encrypted-body-corrupt", format!("reference SEIPDv2 decryption of the deframed body: {e:?}")))?,
+        };
+        analyse_plain(&plain, 0, &mut info)
+    })();
+    if let Err((sym, detail)) = verdict {
+        ctx.violation(format!("C17/writer/{sym}/{class}"), format!("{cfg:?}: {detail}"), replay());
+        return;
+    }
+    let want_sigs = usize::from(cfg.sign);
+    if info.literals != 1 || info.ops != want_sigs || info.sigs != want_sigs || info.cmp.len() != usize::from(cfg.comp.is_some()) {
+        ctx.violation(format!("C17/writer/structure/{class}"), format!("{cfg:?}: found {} literal, {} OPS, {} signatures, {} compressed layers", info.literals, info.ops, info.sigs, info.cmp.len()), replay());
+        return;
+    }
+    // (the builder deliberately writes an empty file name; the name is not part of this property)
+    if info.payload != payload {
+        ctx.violation(
+            format!("C17/writer/payload-differs/{class}"),
+            format!("{cfg:?}: literal body carries {} octets (name {:?}), payload has {} (first difference at {:?})", info.payload.len(), String::from_utf8_lossy(&info.name), payload.len(), first_diff(&info.payload, &payload)),
+            replay(),
+        );
+        return;
+    }
+    if let Some((alg, _)) = info.cmp.first() {
+        if Some(*alg) != cfg.comp {
+            ctx.violation(format!("C17/writer/structure/{class}"), format!("{cfg:?}: compression algorithm octet {alg}"), replay());
+        }
+    }
+    // coverage: chunk shapes written
+    let shape = |c: &[u32]| match c.len() {
+        0 => "fixed",
+        1 => "1-partial",
+        2 => "2-partial",
+        _ => "3+-partial",
+    };
+    ctx.seen("W.literal_shapes", shape(&info.lit_chunks));
+    if let Some((_, c)) = info.cmp.first() {
+        ctx.seen("W.compressed_shapes", shape(c));
+    }
+    if let Some(c) = &enc_chunks {
+        ctx.seen("W.encrypted_shapes", shape(c));
+    }
+    for c in info.lit_chunks.iter().chain(info.cmp.iter().flat_map(|x| x.1.iter())).chain(enc_chunks.iter().flatten()) {
+        ctx.seen("W.chunk_sizes_written", format!("{c}"));
+    }
+    ctx.seen("W.classes", class.clone());
+    // hook evidence and the two conservation invariants
+    if hooks::available() {
+        for (site, chunks) in [("lit.chunk", Some(&info.lit_chunks)), ("cmp.chunk", info.cmp.first().map(|x| &x.1)), ("enc.chunk", enc_chunks.as_ref())] {
+            let evs: Vec<_> = ev.iter().filter(|e| e.site == site).collect();
+            for e in &evs {
+                let phase = match (e.a, e.c) {
+                    (1, 0) => "single-fixed",
+                    (1, _) => "first-partial",
+                    (0, 1) => "middle-partial",
+                    _ => {
+                        if e.b == 0 {
+                            "final-fixed-empty"
+                        } else {
+                            "final-fixed"
+                        }
+                    }
+                };
+                ctx.seen(&format!("hook.{site}.phase"), phase);
+            }
+            if let Some(chunks) = chunks {
+                let partial_events = evs.iter().filter(|e| e.c == 1).count();
+                if !evs.is_empty() && partial_events != chunks.len() {
+                    ctx.violation(
+                        format!("C17/writer/hook-chunk-mismatch/{class}"),
+                        format!("{cfg:?}: generator {site} reported {partial_events} partial chunks, the stream carries {}", chunks.len()),
+                        replay(),
+                    );
+                }
+            }
+            if site == "lit.chunk" && !evs.is_empty() {
+                let sum: u64 = evs.iter().map(|e| e.b).sum();
+                if sum != payload.len() as u64 {
+                    ctx.violation(format!("C17/writer/hook-chunk-mismatch/{class}"), format!("{cfg:?}: lit.chunk bodies sum to {sum}, payload {}", payload.len()), replay());
+                }
+            }
+        }
+    }
+    ctx.cover(&("W", cfg));
+    if cfg.from_reader && cfg.size > cfg.cs as usize && cfg.enc == Enc::None && cfg.comp.is_none() && !cfg.sign && cfg.cs == 512 {
+        ctx.sample(json!({"family": "W", "cfg": format!("{cfg:?}"), "literal_chunks": info.lit_chunks, "stream_prefix": hexs(&out[..out.len().min(48)])}));
+    }
+}
+
+fn family_writer(ctx: &mut Ctx) {
+    let key = zoo::key(&zoo::Spec::simple(false, zoo::Alg::Ed25519Legacy, None), 0);
+    // the builder writes an empty file name: literal header = mode, name length, date
+    let hl = 6;
+    let css: Vec<u32> = ctx.qt(vec![512, 1024, 2048, 4096, 8192], vec![512, 1024, 2048, 4096, 8192, 16384, 65536]);
+    let mut seed = 0u64;
+    for cs in css {
+        let c = cs as usize;
+        let mut sizes = vec![0, 1, c - hl - 1, c - hl, c - hl + 1, c - 1, c, c + 1, 2 * c - hl - 1, 2 * c - hl, 2 * c - hl + 1, 2 * c, 3 * c - hl, 3 * c + 5];
+        if !ctx.quick() {
+            sizes.extend([c - 2, c - 22, c - 23, 2 * c - 1, 2 * c + 1, 4 * c - hl, 5 * c + 1, 70000]);
+        }
+        for (si, size) in sizes.into_iter().enumerate() {
+            for from_reader in [false, true] {
+                seed += 100;
+                if !ctx.mine() {
+                    continue;
+                }
+                describe_case(&format!("W: chunk size {cs} payload {size} from_reader {from_reader}"));
+                let mut k = 0u64;
+                for comp in [None, Some(0u8), Some(1), Some(2)] {
+                    for enc in [Enc::None, Enc::V1, Enc::V2] {
+                        for sign in [false, true] {
+                            k += 1;
+                            let cfg = WCfg { cs, size, from_reader, sched: si + k as usize, comp, enc, sign };
+                            w_case(ctx, &cfg, &key, seed + k);
+                        }
+                    }
+                }
+                ctx.seen("W.partial_chunk_sizes_configured", format!("{cs}"));
+            }
+        }
+    }
+    // default chunk size (512 KiB) once per source kind, thorough only
+    if !ctx.quick() {
+        for (i, size) in [512 * 1024 - 12usize, 512 * 1024 - 11, 1024 * 1024 + 7].into_iter().enumerate() {
+            if !ctx.mine() {
+                continue;
+            }
+            describe_case(&format!("W: default chunk size payload {size}"));
+            for (j, comp) in [None, Some(0u8)].into_iter().enumerate() {
+                let cfg = WCfg { cs: 512 * 1024, size, from_reader: true, sched: 0, comp, enc: [Enc::None, Enc::V1, Enc::V2][(i + j) % 3], sign: false };
+                w_case(ctx, &cfg, &key, 900_000 + i as u64);
+            }
+        }
+    }
+    // WP: single packets written with their header (fixed lengths around the encoding thresholds)
+    for (li, len) in boundary_lens(ctx).into_iter().enumerate() {
+        if !ctx.mine() {
+            continue;
+        }
+        describe_case(&format!("WP: packets with body {len}"));
+        let data = pat(len, li as u32);
+        // literal: body = 6 + name + data
+        for name in [&b""[..], &b"abc"[..]] {
+            if len < 6 + name.len() {
+                continue;
+            }
+            let d = &data[..len - 6 - name.len()];
+            let Ok(lit) = pgp::packet::LiteralData::from_bytes(name.to_vec(), bytes::Bytes::copy_from_slice(d)) else { continue };
+            let p = Packet::from(lit);
+            let Some(Ok(ser)) = ctx.guarded("C17/writer", || json!({"family": "WP", "len": len}), || p.to_bytes()) else { continue };
+            if let Some(pk) = written_ok(ctx, "LiteralData to_bytes", "packet", &ser, &|| json!({"family": "WP", "len": len, "stream": hexs(&ser)})) {
+                if pk.len() != 1 || pk[0].tag != 11 || pk[0].body.len() != len || !pk[0].body.ends_with(d) || ser.len() != p.write_len() {
+                    ctx.violation("C17/writer/packet-differs", format!("literal with body {len}: deframed to {:?}, write_len {}", pk.iter().map(|r| (r.tag, r.body.len())).collect::<Vec<_>>(), p.write_len()), json!({"family": "WP", "len": len, "stream": hexs(&ser)}));
+                }
+                ctx.cover(&("WP", "lit", len, name.len()));
+            }
+        }
+        // user id, old and new header
+        if let Ok(sid) = std::str::from_utf8(&ascii(len, 3)) {
+            for ver in [PacketHeaderVersion::New, PacketHeaderVersion::Old] {
+                let Ok(uid) = pgp::packet::UserId::from_str(ver, sid) else { continue };
+                let p = Packet::from(uid);
+                let Some(Ok(ser)) = ctx.guarded("C17/writer", || json!({"family": "WP", "len": len}), || p.to_bytes()) else { continue };
+                ctx.eval();
+                match deframe(&ser) {
+                    Ok(pk) if pk.len() == 1 && pk[0].tag == 13 && pk[0].body == sid.as_bytes() && pk[0].new_format == (ver == PacketHeaderVersion::New) && ser.len() == p.write_len() => {
+                        ctx.cover(&("WP", "uid", len, ver == PacketHeaderVersion::New));
+                    }
+                    other => ctx.violation("C17/writer/packet-differs", format!("user id of {len} octets ({ver:?} header): {:?}", other.map(|v| v.iter().map(|r| (r.tag, r.new_format, r.body.len())).collect::<Vec<_>>())), json!({"family": "WP", "len": len, "stream": hexs(&ser)})),
+                }
+            }
+        }
+    }
+}
 
 pub fn run(ctx: &mut Ctx) {
-    ctx.inconclusive("monitor not built yet");
+    // finite sub-spaces enumerated completely: see meta/C17.json "exhaustive_note"
+    ctx.exhaustive = true;
+    family_header_codec(ctx);
+    family_ra(ctx);
+    family_rb(ctx);
+    family_rm(ctx);
+    family_rz(ctx);
+    family_illegal(ctx);
+    family_writer(ctx);
 }
